@@ -130,7 +130,7 @@ def gen_recipe(rng, stream):
         bad = stream == 'malformed' and rng.random() < 0.2
         return ['change', rng.choice(['same', 'same', 'scale', 'zero'] if not bad else ['zero', 'neg']),
                 rng.choice(['same', 'scale', 'cover', 'small'] if not bad else ['zerogrid', 'small']),
-                rng.choice([None, None, 1, 2, 3, 'half', 'double', 'third', 'rand', 'rand', 100]) if not bad else rng.choice([0, 1, None]),
+                rng.choice([None, None, None, 'half', 'double', 'third', 'third', 'rand', 'rand', 'rand', 100, rng.choice([1, 2, 3])]) if not bad else rng.choice([0, 1, None]),
                 rng.random() < 0.12, s]
     if c == 'reset':
         return ['reset', rng.random() < 0.7]
@@ -186,7 +186,7 @@ def materialise(p, rc):
         kind, seed = rc[1], rc[2]
         r = np.random.default_rng(seed)
         b = np.asarray(p.PSDbounds, dtype=float)
-        lo, hi = float(b[0]), float(b[-1])
+        lo, hi = sorted((float(b[0]), float(b[-1])))      # a broken implementation may hand us a decreasing grid
         k = int(r.integers(1, 200))
         if kind == 'uniform':
             d = r.uniform(lo - 0.05 * (hi - lo), hi + 0.05 * (hi - lo), k)
@@ -241,7 +241,7 @@ def pre_ok(p, op):
         _, cMin, cMax, bins, resetPSD = op
         if bins is not None and bins < 1:
             return False
-        return resetPSD or cMin < max(10 * cMin, cMax)
+        return resetPSD or (cMin >= 0 and cMin < max(10 * cMin, cMax))
     if t == 'adjust':
         return p.minBins >= 1 and p.maxBins >= 1
     if t == 'update':
@@ -296,7 +296,7 @@ def ulps_arr(a, b):
     return m
 
 
-def arr_close(a, b, rtol=1e-9):
+def arr_close(a, b, rtol=1e-9, atol=None):
     a = np.asarray(a, dtype=float); b = np.asarray(b, dtype=float)
     if a.shape != b.shape:
         return False
@@ -307,10 +307,13 @@ def arr_close(a, b, rtol=1e-9):
     if not (np.all(np.isfinite(a)) and np.all(np.isfinite(b))):
         return False
     scale = 1e-3 * max(float(np.abs(a).max()), float(np.abs(b).max()))
-    return bool(np.all(np.abs(a - b) <= rtol * np.maximum(np.maximum(np.abs(a), np.abs(b)), scale)))
+    extra = atol if (atol is not None and np.shape(atol) == a.shape) else 0.0
+    return bool(np.all(np.abs(a - b) <= rtol * np.maximum(np.maximum(np.abs(a), np.abs(b)), scale) + extra))
 
 
 def M(psd, size, k):
+    if len(psd) != len(size):
+        return float('nan')
     return float(np.sum(np.asarray(psd) * np.asarray(size) ** k))
 
 
@@ -349,6 +352,34 @@ def centre_in_support(pre_psd, pre_bounds, new_size):
     return False
 
 
+EPS = 2.220446049250313e-16
+
+
+def remesh_noise(old_psd, old_bounds, post):
+    """forward rounding-error bound (per class) of the interpolated and rescaled populations.  A new centre carries a few ulp
+    of error and, when it lies within an ulp of an old centre, may fall into either neighbouring segment: the interpolated
+    value moves by |slope| * |dx|.  The error of newV then enters every class through the factor oldV/newV."""
+    old_psd = np.asarray(old_psd, dtype=float); old_bounds = np.asarray(old_bounds, dtype=float)
+    x = post['size']; w = np.diff(post['bounds'])
+    r = 0.5 * (old_bounds[1:] + old_bounds[:-1])
+    if len(r) < 2 or len(x) == 0 or len(old_psd) != len(r):
+        return np.zeros(len(x))
+    with np.errstate(all='ignore'):
+        den = old_psd / np.diff(old_bounds)
+        sl = np.abs(np.diff(den) / np.diff(r))
+        j = np.clip(np.searchsorted(r, x, 'right') - 1, 0, len(sl) - 1)
+        s_ = np.maximum(sl[j], np.maximum(sl[np.clip(j - 1, 0, len(sl) - 1)], sl[np.clip(j + 1, 0, len(sl) - 1)]))
+        raw = np.interp(x, r, den) * w
+        newV = float(np.sum(raw * x ** 3)); oldV = float(np.sum(old_psd * r ** 3))
+        if not newV > 0:
+            return np.zeros(len(x))
+        scale = oldV / newV
+        nraw = 16 * EPS * np.abs(x) * s_ * w
+        rel = float(np.sum(nraw * x ** 3)) / newV
+        out = nraw * scale + np.abs(post['psd']) * rel
+    return np.where(np.isfinite(out), out, 0.0)
+
+
 MOMFUNCS = ['MomentFromN', 'CumulativeMomentFromN', 'WeightedMomentFromN', 'CumulativeWeightedMomentFromN',
             'ZeroMomentFromN', 'FirstMomentFromN', 'SecondMomentFromN', 'ThirdMomentFromN']
 
@@ -367,7 +398,7 @@ def run_impl(init, recipes, res=None):
     viol = []
     p = PopulationBalanceModel(cMin=init['cMin'], cMax=init['cMax'], bins=init['bins'], minBins=init['minBins'], maxBins=init['maxBins'])
     s0 = snapshot(p)
-    valid = init['bins'] >= 1 and init['cMin'] < max(10 * init['cMin'], init['cMax'])
+    valid = init['bins'] >= 1 and init['cMin'] >= 0 and init['cMin'] < max(10 * init['cMin'], init['cMax'])
     case = {'init': init, 'recipes': recipes}
 
     def violate(key, what, obs=None, req=None, at=None):
@@ -380,15 +411,26 @@ def run_impl(init, recipes, res=None):
     steps, toks = [], []
     cut = None
     backup = None   # (psd, bounds) of an explicit createBackup still in force
+    noise = None          # None: populations are supplied values; array: per-class rounding bound of re-meshed populations
+    bk_noise = None
     prev = s0
     for i, rc in enumerate(recipes):
-        op = materialise(p, rc)
+        try:
+            op = materialise(p, rc)
+        except (ValueError, IndexError, OverflowError):
+            cut = 'cannot-materialise'      # only on an already inconsistent object
+            break
         t = op[0]
         # threshold ties (decisions on computed populations)
         if t == 'adjust':
             q = np.asarray(p.PSD, dtype=float)
-            if q.size and np.any((q != 1.0) & (np.abs(q - 1.0) <= 1e-9)):
-                cut = 'near-tie'; break
+            # a population that is exactly 1.0 is a tie only if it was computed (re-mesh rescaling), not supplied
+            if q.size:
+                tol = np.full(len(q), 1e-9) if noise is None or len(noise) != len(q) else np.maximum(1e-9, 4 * noise)
+                if np.any(((noise is not None) | (q != 1.0)) & (np.abs(q - 1.0) <= tol)):
+                    cut = 'near-tie'; break
+        if t in ('adjust', 'change') and noise is not None and len(noise) and np.any(noise > 1e-10 * max(float(np.max(np.abs(p.PSD))), 1e-300)):
+            cut = 'near-tie'; break       # an ill-conditioned re-mesh result would be re-meshed again: rounding noise is amplified
         pre = pre_ok(p, op)
         if res is not None:
             res.count('op:' + t)
@@ -487,7 +529,9 @@ def run_impl(init, recipes, res=None):
             if not (len(pb) == len(pp) + 1 and len(pp) >= 1 and np.all(np.diff(pb) > 0) and np.all(pp >= 0)):
                 if t in ('reset', 'change', 'adjust', 'backup') or i == 0:
                     pass   # reported through revert when it is used; pre-repair code keeps a zero backup
-        if t == 'add' and valid:
+        # the extension / re-mesh clauses presuppose a consistent grid before the operation
+        shape_ok = check_consistency(prev) is None and len(post['psd']) == len(post['size']) == len(post['bounds']) - 1
+        if t == 'add' and valid and shape_ok:
             nb = prev['bins']
             k = op[1]
             if post['bins'] != nb + k or len(post['psd']) != nb + k:
@@ -501,7 +545,7 @@ def run_impl(init, recipes, res=None):
                     if not close(M(post['psd'], post['size'], k_), M(prev['psd'], prev['size'], k_), 1e-9):
                         violate('extend:moment-%d-changed' % k_, 'addSizeClasses changed moment %d' % k_,
                                 M(post['psd'], post['size'], k_), M(prev['psd'], prev['size'], k_), at=at)
-        if remeshed and valid:
+        if remeshed and valid and shape_ok:
             m3a, m3b = M(prev['psd'], prev['size'], 3), M(post['psd'], post['size'], 3)
             old_psd, old_bounds = prev['psd'], prev['bounds']
             if t == 'adjust' and len(old_psd) and old_psd[-1] > 1:      # the extension ran before the re-mesh
@@ -518,6 +562,13 @@ def run_impl(init, recipes, res=None):
                             m3b, m3a, at=at)
                 else:
                     violate('remesh:third-moment-changed', 're-mesh to a covering grid changed the third moment', m3b, m3a, at=at)
+        if t == 'adjust' and res is not None:
+            extended = len(prev['psd']) > 0 and prev['psd'][-1] > 1
+            if remeshed:
+                nb = prev['bins'] + (int(s0['origBins'] / 4) if extended else 0)
+                res.count('adjust:' + ('extend+' if extended else '') + ('remesh-over-cap' if nb > post['maxBins'] else 'remesh-dissolution'))
+            else:
+                res.count('adjust:extend-only' if extended else 'adjust:nothing')
         if t == 'adjust' and post['adaptive'] and post['minBins'] <= post['maxBins'] and post['bins'] > post['maxBins']:
             violate('adaptive-cap-exceeded', 'adjustSizeClassesEuler with adaptive binning left more classes than maxBins', post['bins'], post['maxBins'], at=at)
         if full_reset:
@@ -527,6 +578,20 @@ def run_impl(init, recipes, res=None):
             if not ok:
                 violate('reset-not-original', 'reset did not restore the original grid with an empty distribution',
                         dict(min=post['min'], max=post['max'], bins=post['bins']), dict(min=s0['origMin'], max=s0['origMax'], bins=s0['origBins']), at=at)
+        if remeshed:
+            noise = remesh_noise(old_psd, old_bounds, post) if (valid and shape_ok) else np.zeros(len(post['psd']))
+        elif t in ('update', 'setpsd', 'load', 'reset') or full_reset:
+            noise = None
+        elif t == 'backup':
+            bk_noise = None if noise is None else noise.copy()
+        elif t == 'revert':
+            noise = None if bk_noise is None else bk_noise.copy()
+        elif noise is not None and len(noise) < len(post['psd']):
+            noise = np.append(noise, np.zeros(len(post['psd']) - len(noise)))       # extension
+        if t == 'reset' or remeshed or full_reset:
+            bk_noise = None
+        steps[-1]['psd_atol'] = noise
+        steps[-1]['prev_atol'] = bk_noise
         # backup / revert
         if t == 'backup':
             backup = (prev['psd'].copy(), prev['bounds'].copy())
@@ -575,7 +640,7 @@ class Cur:
         return s
 
 
-def compare_state(impl, mod):
+def compare_state(impl, mod, psd_atol=None, prev_atol=None):
     """None or the name of the first differing attribute"""
     if impl['bins'] != mod['bins']:
         return 'bins'
@@ -588,8 +653,8 @@ def compare_state(impl, mod):
         return 'PSDbounds (> 4 ulp)'
     if ulps_arr(impl['prevBounds'], mod['prevBounds']) > 4:
         return '_prevPSDbounds (> 4 ulp)'
-    for f, name in (('psd', 'PSD'), ('size', 'PSDsize'), ('prevPsd', '_prevPSD')):
-        if not arr_close(impl[f], mod[f], 1e-9):
+    for f, name, atol in (('psd', 'PSD', psd_atol), ('size', 'PSDsize', None), ('prevPsd', '_prevPSD', prev_atol)):
+        if not arr_close(impl[f], mod[f], 1e-9, atol):
             return name
     return None
 
@@ -640,7 +705,7 @@ def compare(tr, answer):
                 if (bool(r[0]), None if r[1] is None else int(r[1])) != (chg, ni):
                     out.append(('adjustSizeClassesEuler return value', i, [bool(r[0]), r[1]], [chg, ni]))
             ms = new
-            d = compare_state(st['snap'], ms)
+            d = compare_state(st['snap'], ms, st.get('psd_atol'), st.get('prev_atol'))
             if d:
                 out.append(('%s after %s' % (d, st['op'][0]), i, summary(st['snap']), summary(ms)))
                 break
@@ -724,7 +789,7 @@ def corr(ctx, nseq=None, oracle_only=False):
                 'grid) + fixed witness sequences; every attribute compared after every operation; non-trivial = the sequence re-meshes, extends or '
                 'reverts a populated grid; distinct = (initial grid, recipe list)')
     maxlen = ctx.n(40, 400)
-    N = nseq or ctx.n(260, 2600)
+    N = nseq or ctx.n(900, 12000)
     seqs = gen_sequences(ctx, N, maxlen)
     traces = []
     for init, recipes, stream in seqs:
